@@ -65,7 +65,8 @@ def parse_source_data(text):
     i = text.index('SOURCE DATA')
     rest = text[i:]
     j = rest.find('CURRENT DATA')
-    rest = rest[:j]
+    if j >= 0:
+        rest = rest[:j]
     out = []
     cur = None
     for l in rest.split('\n'):
